@@ -62,7 +62,7 @@ Definition check09 (g : N) : bool := check_group lops09 [P1] safe09 expect09 R09
 
 (* ------------------------------------------------------------------ the reachable sets are closed *)
 Lemma check09_all : forallb check09 all_groups = true.
-Proof. vm_compute. reflexivity. Qed.
+Proof. vm_cast_no_check (eq_refl true). Qed.
 
 Lemma CHK09 : forall g, In g all_groups -> check09 g = true.
 Proof. intros g H. pose proof check09_all as A. rewrite forallb_forall in A. auto. Qed.
